@@ -95,11 +95,14 @@ def guard_states(cfg: CFG) -> Dict[int, FrozenSet[FrozenSet[Literal]]]:
             return frozenset(out)
         return state
 
+    collapsed: Set[int] = set()
+
     def join(node: Node, incoming):
         alts = set()
         for _, _, st in incoming:
             alts |= st
-        if len(alts) > CAP:
+        if len(alts) > CAP or node.id in collapsed:
+            collapsed.add(node.id)      # sticky: once a node keeps only the common literals it stays that way (monotone, so the solver converges)
             common = None
             for a in alts:
                 common = set(a) if common is None else common & a
